@@ -257,7 +257,9 @@ class Prog:
                 attrs[f"v{i}"] = LocalVar(l[1])
         if dest[0] == "loc":
             attrs["d"] = LocalVar(dest[1])
-        b = self.b = dsl.Builder(attrs, n_in=max(1, len(leaves)), n_out=1)
+        nreg = sum(1 for l in leaves if l[0] == "reg")
+        b = self.b = dsl.Builder(attrs, n_in=max(1, len(leaves)),
+                                 n_out=1 + nreg)
         e = b.e
         self.regno = {}
         free = list(self.REGS)
@@ -287,6 +289,15 @@ class Prog:
         else:
             getattr(e, "m" + dest[1])[e.r9 + 56] = expr
             b.out_mem(9, 56, FMT[dest[1][-1]][0], 0)
+        # the operand registers after the statement (raw reads): an
+        # assignment changes its destination only
+        self.kept = []      # (input index, 32-bit view?, output slot)
+        dreg = dno if dest[0] == "reg" else None
+        for i, l in enumerate(leaves):
+            if l[0] == "reg" and self.regno[l] != dreg:
+                self.kept.append((i, REGKIND[l[1]][0] == 4,
+                                  1 + len(self.kept)))
+                b.out_reg(self.regno[l], len(self.kept))
         b.finish()
         b.code()
 
@@ -408,6 +419,21 @@ def run_case(tree, dest, alias, vectors, res, kernel_every=0, caseno=0):
                 raise core.Internal(
                     f"VM/kernel disagreement on {case} env={env}: "
                     f"vm={obs:#x} kernel={kouts[0] & dmask:#x}")
+        if trap is None:
+            # operands are only read (inside and outside the precondition)
+            inp = p.inputs(env)
+            for i, narrow, slot in p.kept:
+                m = 0xffffffff if narrow else M64
+                if outs[slot] & m != inp[i] & m:
+                    res.outcomes.add("operand register changed")
+                    res.violation(
+                        dict(case, env=envj(env), operand=list(p.leaves[i])),
+                        f"operand register still holds {inp[i] & m:#x}",
+                        hex(outs[slot] & m),
+                        sig=core.digest(["clobber", shape(tree)[0],
+                                         p.leaves[i], dest[0]]),
+                        note="the statement changed an operand register")
+                    break
         if trap is not None and exp is None:
             res.count("outside_precondition")
             res.outcomes.add("trap outside precondition")
